@@ -13,6 +13,7 @@ BUDGET = {
     "quick": {"workers": 16, "cases": 1000, "secs": 60, "min_cases": 8000},
     "thorough": {"workers": 16, "rounds": 4, "cases": 2600, "secs": 420, "min_cases": 83200},
 }
+SIBLINGS = True  # consecutive cases with identical structure and different gate types
 ANCHORS = [
     "circuit:Circuit.fanin",
     "circuit:Circuit.fanout",
